@@ -37,7 +37,7 @@ if ok:
     dst = f"/verif/seeded/{pid}-{n}"
     os.makedirs(dst, exist_ok=True)
     for f in ("patch.diff", "demo.py", "notes.md"):
-        if os.path.isfile(os.path.join(src, f)):
+        if os.path.isfile(os.path.join(src, f)) and os.path.abspath(src) != os.path.abspath(dst):
             shutil.copy(os.path.join(src, f), os.path.join(dst, f))
     meta_p = os.path.join(dst, "meta.json")
     meta = json.load(open(meta_p)) if os.path.isfile(meta_p) else {}
